@@ -554,11 +554,11 @@ func init() {
 		[]Stage{en("c35pid", 4, 60, nil), en("c35lock", 16, 1200, prm("len", 6))})
 
 	planTable["C26"] = enumPlan("exploration",
-		"Stream contents: every non-empty subset of 5 user keys {a,ab,b,c,d} x 3 version patterns (two versions each / newest only / mixed), values at threshold-1/threshold/threshold+1, delete markers, user meta, expiry; split into one or two streams with disjoint key ranges at every key boundary; x {Prepare on a non-empty DB, PrepareIncremental on an empty DB, over data in the last level only, over L0 + last level (the Flatten branch)}; each stream cut into Write batches by 3 patterns (one batch / singletons / two halves that may separate a key's versions), the two streams' batches interleaved 4 ways (including both streams in one buffer), done markers absent / with the last batch / in a separate buffer, plain / encrypted / snappy / in-memory (quick: 2 rotating combinations of these four per (content, split, mode); thorough: all 432); table size 300 bytes so a stream spans several tables, ValueLogMaxEntries 1 so the value log rotates between the streams of one Write call. After Flush: the dump of ALL versions (value, user meta, expiry, delete markers) equals exactly the streamed entries plus, in incremental mode, the pre-existing ones; levels are structurally valid and match the MANIFEST and the files; the same after close and re-open; the next commits get timestamps above every streamed version and are read back.",
+		"Stream contents: every non-empty subset of 5 user keys {a,ab,b,c,d} x 3 version patterns (two versions each / newest only / mixed), values at threshold-1/threshold/threshold+1, delete markers, user meta, expiry; split into one or two streams with disjoint key ranges at every key boundary; x {Prepare on a non-empty DB, PrepareIncremental on an empty DB, over data in the last level only, over L0 + last level (the Flatten branch)}; each stream cut into Write batches by 3 patterns (one batch / singletons / two halves that may separate a key's versions), the two streams' batches interleaved 4 ways (including both streams in one buffer), done markers absent / with the last batch / in a separate buffer, plain / encrypted / snappy / in-memory (quick: 2 rotating combinations of these four per (content, split, mode); thorough: all 432); table size 300 bytes so a stream spans several tables, ValueLogMaxEntries 1 so the value log rotates between the streams of one Write call. After Flush: the dump of ALL versions (value, user meta, expiry, delete markers) equals exactly the streamed entries plus, in incremental mode, the pre-existing ones; levels are structurally valid and match the MANIFEST and the files; the same after close and re-open; the next commits get timestamps above every streamed version and are read back. With real compactors (2 / 4) and pre-existing data in level 0 and / or the last level: PrepareIncremental must leave no compactor running, Flush must leave exactly the configured number, and ten virtual minutes after Close none (c26inc).",
 		"Drives StreamWriter.Prepare/PrepareIncremental/Write/Flush on the real DB.",
 		"nested enumeration; distinct = distinct (content, split, mode, batching, interleaving, done markers, configuration)",
-		[]Stage{en("c26sw", 16, 90, nil)},
-		[]Stage{en("c26sw", 16, 1500, prm("full", true))})
+		[]Stage{en("c26sw", 16, 90, nil), en("c26inc", 8, 30, nil)},
+		[]Stage{en("c26sw", 16, 1500, prm("full", true)), en("c26inc", 8, 60, nil)})
 
 	planTable["C27"] = enumPlan("exploration",
 		"All operation sequences of length <= 4 (quick) / 5 (thorough) over {Set, Delete} x {x,y} for NewWriteBatch (normal DB) and NewWriteBatchAt(6), (NewWriteBatchAt additionally mixes in SetEntryAt / DeleteAt on x at 5 and 7), and over {SetEntryAt, DeleteAt} x {x,y} x {ts 5,7} for NewManagedWriteBatch, with the batch's transaction limit set so that it splits after every 1, 2 or 3 entries (and not at all); after Flush every key is read (managed: at every timestamp 4..8) and must show the LAST call for that key (and version).",
